@@ -173,6 +173,38 @@ def oracle_dims(c, out):
     return []
 
 
+_SIEVE = [None]
+
+
+def largest_low_factor(n_max):
+    """best[k] = the largest b with b * b <= k and b | k, for every k <= n_max (a sieve: independent of any
+    square root function)."""
+    if _SIEVE[0] is None or len(_SIEVE[0]) <= n_max:
+        best = [1] * (n_max + 1)
+        b = 2
+        while b * b <= n_max:
+            cnt = len(range(b * b, n_max + 1, b))
+            best[b * b::b] = [b] * cnt
+            b += 1
+        _SIEVE[0] = best
+    return _SIEVE[0]
+
+
+def oracle_dimsrange(c, out):
+    if out[0] == "hang":
+        return [("std_dims", "standard_system_dimensions did not return for some n = 3k, %d <= k < %d" % (c["lo"], c["hi"]))]
+    if out[0] != "ok" or len(out[1]) != 2 * (c["hi"] - c["lo"]):
+        return [("std_dims", "standard_system_dimensions raised %r for some n = 3k, %d <= k < %d" % (out, c["lo"], c["hi"]))]
+    best = largest_low_factor(c["hi"])
+    for i, k in enumerate(range(c["lo"], c["hi"])):
+        b = best[k]
+        if (out[1][2 * i], out[1][2 * i + 1]) != (12 * (k // b), 12 * b):
+            return [("std_dims", "standard_system_dimensions(%d) = %r, the squarest arrangement of %d three-board units "
+                     "is %d x %d units = %r chips" % (3 * k, tuple(out[1][2 * i:2 * i + 2]), k, k // b, b,
+                                                      (12 * (k // b), 12 * b)))]
+    return []
+
+
 # ------------------------------------------------------------------ generators
 def gen_cases(rng, tier):
     cases = []
@@ -186,6 +218,10 @@ def gen_cases(rng, tier):
     tori = [(12, 24), (24, 12), (24, 24), (36, 12), (12, 36), (36, 24), (24, 36), (48, 24), (36, 36)]
     if big:
         tori += [(48, 48), (60, 36), (60, 60), (72, 24), (96, 12), (12, 96)]
+        for w, h in ((24, 24), (24, 12), (12, 24)):          # every root residue on multi-cell tori
+            for rx in range(12):
+                for ry in range(12):
+                    cases.append(dict(k="machine", w=w, h=h, rx=rx, ry=ry, cls="torus-all-roots"))
     for w, h in tori:
         for _ in range(12 if big else 2):
             cases.append(dict(k="machine", w=w, h=h, rx=rng.randrange(12), ry=rng.randrange(12), cls="torus"))
@@ -198,7 +234,7 @@ def gen_cases(rng, tier):
         ragged += [(rng.randint(1, 40), rng.randint(1, 40)) for _ in range(30)]
         ragged = [(w, h) for w, h in ragged if w % 12 or h % 12]
     for w, h in ragged:
-        for _ in range(3 if big else 1):
+        for _ in range(2 if big else 1):
             style = rng.random()
             if style < 0.3:
                 rx, ry = 0, 0
@@ -248,6 +284,11 @@ def gen_cases(rng, tier):
         m = max(m, 2)
         for k in (m * m, m * (m + 1), m * (m - 1)):    # all have a divisor close to sqrt(k): short loops
             ns.append(3 * k)
+    # every k up to a bound, judged by the sieve oracle only (the model is compared on the cases above)
+    top = 10 ** 6 if big else 60000
+    step = 20000
+    for lo in range(1, top + 1, step):
+        cases.append(dict(k="dimsrange", lo=lo, hi=min(lo + step, top + 1), cls="dims-range"))
     for n in ns:
         # the model's loop counter is a unary number: beyond k = 10^9 only the oracle judges the code
         cases.append(dict(k="dims", n=n, cls="dims" if n <= 3 * 10 ** 9 else "dims-large"))
@@ -273,21 +314,19 @@ def coq_expr(c, out):
     return "%s %s" % (fn, " ".join(zlit(a) for a in c["args"]))
 
 
-M61 = 2 ** 61 - 1
-
-
 def digest(vals):
-    """The same running digest as Model/Board.v `digest` (the per-chip outputs of a machine are compared
-    through it; on a mismatch the position of the first difference is then computed on the full lists)."""
-    acc = 0
-    for v in vals:
-        acc = (acc * 1000003 + v + 7) % M61
-    return acc
+    """The same digest as Model/Board.v `digest` (the per-chip outputs of a machine are compared through
+    it; on a mismatch the position of the first difference is then computed on the full lists)."""
+    a = b = 0
+    for i, v in enumerate(vals, 1):
+        a += i * (v + 7)
+        b += (v + 7) * (v + i)
+    return [a, b]
 
 
 def canon_model(c, v):
     if c["k"] == "machine":
-        return ["digest", v[0], "eth-list-differs-at", v[1]]
+        return ["digest", [v[0], v[1]], "eth-list-differs-at", v[2]]      # ((a, b), d) prints as (a, b, d)
     if c["k"] == "point" and c["f"] == "eth":
         return ["ok", [list(p) for p in v]]
     if v[0] == "Ok":
@@ -315,9 +354,10 @@ def run(chk, args):
                     "math.sqrt on exact doubles (compared with Z.sqrt over the stated range only)"]
     chk.assumptions += [
         "coordinates, dimensions, root offsets, link numbers and board counts are Python ints",
-        "int(math.sqrt(k)) = floor(sqrt(k)) is compared with the code for board counts 3k with k <= %s and for "
-        "perfect squares and their neighbours up to 2^52 (sampled); the theorem about standard_system_dimensions "
-        "is about the model with Z.sqrt" % ("30000 (every k)" if chk.tier != "quick" else "400 (every k)"),
+        "int(math.sqrt(k)) = floor(sqrt(k)): the theorem about standard_system_dimensions is about the model with "
+        "Z.sqrt; the model is compared with the code for board counts 3k with every k <= %s, and the code is judged "
+        "by exact integer arithmetic for every k <= %s and for perfect squares and their neighbours up to 2^52 "
+        "(sampled)" % (("30000", "10^6") if chk.tier != "quick" else ("400", "60000")),
         "a machine is either a torus whose width and height are positive multiples of 12, or a ragged machine "
         "in which only boards whose Ethernet chip lies inside the machine are judged for spinn5_local_eth_coord"]
     chk.regenerate(UNITS)
@@ -329,7 +369,7 @@ def run(chk, args):
     else:
         cases = gen_cases(chk.rng, chk.tier)
     # implementation
-    cost = lambda c: c["w"] * c["h"] if c["k"] == "machine" else 1
+    cost = lambda c: c["w"] * c["h"] if c["k"] == "machine" else (3000 if c["k"] == "dimsrange" else 1)
     chunks, cur, acc = [], [], 0
     for c in cases:
         cur.append(c)
@@ -355,6 +395,10 @@ def run(chk, args):
         elif c["k"] == "point":
             bad = oracle_point(c, o)
             nontrivial = c["cls"] == "point"
+        elif c["k"] == "dimsrange":
+            chk.count("board-counts-in-ranges", c["hi"] - c["lo"])
+            bad = oracle_dimsrange(c, o)
+            nontrivial = True
         else:
             bad = oracle_dims(c, o)
             nontrivial = c["n"] >= 3 and c["n"] % 3 == 0
@@ -366,7 +410,7 @@ def run(chk, args):
             seen.add(key)
     for pick in ("machine", "point", "dims"):
         for c, o in zip(cases, outs):
-            if c["k"] == pick and (pick != "machine" or c["w"] * c["h"] <= 64) and c.get("cls") != "cell-all-roots":
+            if o[0] == "ok" and c["k"] == pick and (pick != "machine" or c["w"] * c["h"] <= 64) and c.get("cls") != "cell-all-roots":
                 chk.sample(dict(case=c, implementation=o if pick != "machine" else [o[0], o[1][:40], o[2]]))
                 break
     # model
@@ -380,7 +424,8 @@ def run(chk, args):
                 per = (len(perm) + shards - 1) // shards
                 vals.update(zip(perm, chk.coq_eval(HEADER, [coq_expr(cases[i], outs[i]) for i in perm],
                                                    shard=per, name="machines")))
-            rest = [i for i in range(len(cases)) if cases[i]["k"] != "machine" and cases[i].get("cls") != "dims-large"]
+            rest = [i for i in range(len(cases)) if cases[i]["k"] in ("point", "dims")
+                    and cases[i].get("cls") != "dims-large"]
             if rest:
                 vals.update(zip(rest, chk.coq_eval(HEADER, [coq_expr(cases[i], outs[i]) for i in rest],
                                                    shard=max(400, (len(rest) + 23) // 24), name="calls")))
@@ -418,4 +463,5 @@ def run(chk, args):
         "dimensions, link numbers outside 0..5; board counts %s. non-trivial = machine at least one board wide and "
         "high, in-domain single call, or a positive multiple of 3 boards; distinct by hash of the input"
         % ((("96x12/60x60", "every w,h in 1..40") if chk.tier != "quick" else ("48x24/36x36", "38 sizes in 1..40"))
-           + ("-12..90000 all" if chk.tier != "quick" else "-12..1200 all, plus samples to 3*2^52",)))
+           + ("-12..90000 one by one, every multiple of 3 up to 3*10^6 in ranges, samples to 3*2^52" if chk.tier != "quick"
+              else "-12..1200 one by one, every multiple of 3 up to 180000 in ranges, samples to 3*2^52",)))
